@@ -54,6 +54,35 @@ CLAIMED = {
     "C20": ("theorem C20_merge (cppEval of the -D output = new file when defined, = original when not; balanced; nothing rejected) for every valid "
             "script with terminated, directive-free lines and grouped hunks; tie T3 with -D; oracle: independent Python preprocessor on the output bytes", "5/C20"),
 }
+# round two (DESIGN.md section 12): theorems and scenarios added since the table above was written
+ADDED = {
+    "C01": " Round two: C01_section and the END-TO-END theorem C01_run(_filler/_guess): for the text of a unified diff of a file (header lines + write_hunk_as_unified of a "
+           "valid script, optional inert filler in front, CRLF lines included) the whole modelled program exits 0, leaves exactly the new content with the old mode and "
+           "changes no other path; the proof attempt found D48 (first hunk line '--- x' dropped the hunk), fixed. Scenarios: empty-file git create/delete, edit+copy, "
+           "content lines that look like headers, fixed regressions D48 D66 D79; finding D69.",
+    "C03": " Round two: rejected_had_no_placement_at (every rejected hunk of a whole run had no admissible placement from the cursor left by the hunks applied before it).",
+    "C04": " Round two: writeRejects_twice (rejects of later sections are added, not lost: fix D52), refuse_no_hunks; regressions D52 D61 D63 D65; findings D56 D57 D58.",
+    "C05": " Round two: guessFilepath_reverse_made; scenarios: swapped / chained git renames under -R (fix D46), empty-file sections, modes under -R; finding D70.",
+    "C06": " Round two: creation patches are inside (FirstHunkNoLongerFits second disjunct), C06_t gives r.patch = reversePatch p0, C06_t_creation (fix D45).",
+    "C07": " Round two: normal_counts bounded below (fix D74), 19/20-digit numbers, no-newline marker at every position, single-fault schedules checked for std::terminate.",
+    "C08": " Round two: git_header_consumed (fix D40), hang detection in the in-process tie with the request as failing input, binary markers, absolute paths.",
+    "C09": " Round two: section_atomic_strict (an abandoned section has not even changed a mode), deferred_write_touches_nothing / _no_backup_yet (fix D31), removal-with-backup "
+           "(fix D47); swap scenarios in the kill enumeration (finding D23).",
+    "C11": " Round two: unified_header_roundtrip/_after_filler/_forced, first_hunk_line_like_header, forced_format_trailing_garbage (fix D43), prereq_not_stripped; driver: "
+           "git create/delete sharing directories, -u/-c forced, modes compared; regression D78; findings D29 D67.",
+    "C12": " Round two: git_name_p0 (fix D50), git_header_same_name + git_header_split_unique (fix D51).",
+    "C13": " Round two: the round trips are now EXACT (CRLF class kept: fix D49) - unified_roundtrip returns hs itself; reject_shift (exact shift of every rejected hunk); "
+           "reject totals across shared reject files.",
+    "C14": " Round two: getLine_never_none (only the marker makes a line unterminated: fix D53), output_sources; regressions D53.",
+    "C15": " Round two: C15_section_fidelity, C15_run_dry(_filler) (end to end: exit 0 and tree untouched); findings D59 D60.",
+    "C16": " Round two: fs_is_replay (the trace is the complete account of every run, faults and aborts included), untouched_paths_unchanged; AllowedC widened by the backup "
+           "name of a rename's source (fix D47, old form refuted by C16_old_allowed_false); -o and Index/-pN families; regression D64.",
+    "C17": " Round two: fixPermissions_reads_only, section_chmod_late / run_chmod_late (fix D41), refuse_no_hunks, symlink and non-regular output refusals (fixes D76 D77), "
+           "Prereq (fix D75); finding D68.",
+    "C18": " Round two: writeNow_backup_first, finalize_backup_first, makeBackupFor_existing_mkdir (-B bak/: fix D62), finalizeRemoval_backup; findings D39 D44.",
+    "C19": " Round two: stoi_leading_space, stoi_accepts_only_numbers (fix D55).",
+    "C20": " Round two: C20_merge WITHOUT the 'grouped' hypothesis (any interleaving of - and + lines: fix D42); -R -D, -l drift, interleaved hunks.",
+}
 TODO = {}
 props = [json.loads(l) for l in open(os.path.join(HERE, "properties.jsonl"))]
 fixes = subprocess.run(["git", "-C", "/repo", "log", "--format=%h %s", "--grep=^fix:"], capture_output=True, text=True).stdout.strip().splitlines()
@@ -63,6 +92,7 @@ for p in props:
     pid = p["id"]
     if pid in CLAIMED:
         text, ref = CLAIMED[pid]
+        text += ADDED.get(pid, "")
         checks.append({
             "property_id": pid,
             "quick_cmd": f"./check {pid} --tier quick",
